@@ -296,7 +296,8 @@ SPEC = {
              'operand tuples over {F,T,U}. Sub-check dict_reuse: the caller keeps one assignment dictionary across a generated '
              'sequence of evaluations through the three entry points while defining / changing / undefining inputs in place; every '
              'answer must be sound for the inputs fixed at that moment. Non-trivial: some gate is defined while an input it structurally '
-             'depends on is undefined.'),
+             'depends on is undefined.'
+             ' Added during the build: zero-input circuits, circuits looked at and then partly fixed (replace_inputs) before evaluation, evaluation of what into_bench leaves behind, explicit outputs= selections as lists and tuples, transported Undefined marks.'),
     'assumptions': ['reference full tables from vlib/refsem.py'],
     'subs': [Sub('partial', cases, check_partial, {'quick': 1500, 'thorough': 75000}),
              Sub('dict_reuse', reuse_cases, check_reuse, {'quick': 1500, 'thorough': 50000})],
